@@ -18,6 +18,7 @@ type evalCtx struct {
 	cnt   map[string]string
 	inOld bool
 	err   []string
+	usedLocal bool // the expression refers to a local variable of the callee (meaningless at a call site)
 }
 
 func (ex *Exec) evalClause(st *State, fr *Frame, c *Clause, extra map[string]Val) string {
@@ -58,6 +59,23 @@ func (ev *evalCtx) read(name, sort, ref string) string {
 
 func ghost(t, s string) Val { return Val{T: t, S: s} }
 
+func (ev *evalCtx) isParam(n string) bool {
+	if ev.fr.fn == nil {
+		return false
+	}
+	for _, p := range ev.fr.fn.Params {
+		if p.Name() == n {
+			return true
+		}
+	}
+	for _, fv := range ev.fr.fn.FreeVars {
+		if fv.Name() == n {
+			return true
+		}
+	}
+	return n == "result" || n == "self"
+}
+
 func (ev *evalCtx) lookupName(n string) (Val, bool) {
 	for i := len(ev.bound) - 1; i >= 0; i-- {
 		if v, ok := ev.bound[i][n]; ok {
@@ -75,6 +93,13 @@ func (ev *evalCtx) lookupName(n string) (Val, bool) {
 		for i, p := range fr.fn.Params {
 			if p.Name() == n && i < len(fr.params) {
 				return fr.params[i], true
+			}
+		}
+	}
+	if av, ok := fr.nameAlias[n]; ok {
+		if v, have := fr.vals[av]; have {
+			if cur, ok2 := fr.names[n]; !ok2 || cur.T == "0" {
+				return v, true
 			}
 		}
 	}
@@ -131,6 +156,9 @@ func (ev *evalCtx) eval(e *SExpr) Val {
 		}
 		if c, ok := prelude.consts[e.Name]; ok {
 			return ghost(e.Name, c)
+		}
+		if ev.fr.pseudo {
+			ev.usedLocal = true
 		}
 		return ev.fail("unknown identifier %s", e.Name)
 	case "old":
@@ -467,6 +495,9 @@ func (ev *evalCtx) call(e *SExpr) Val {
 		if len(e.Args) != 1 || e.Args[0].Op != "str" {
 			return ev.fail("bound(\"name\")")
 		}
+		if ev.fr.pseudo && !ev.isParam(e.Args[0].Str) {
+			ev.usedLocal = true
+		}
 		if _, ok := ev.lookupName(e.Args[0].Str); ok {
 			return ghost("true", "Bool")
 		}
@@ -602,14 +633,21 @@ func (ev *evalCtx) call(e *SExpr) Val {
 		if snap == nil {
 			return ev.fail("loopentry: loop %d not entered", e.Args[0].Int)
 		}
-		save, saveC := ev.heap, ev.cnt
+		save, saveC, saveF := ev.heap, ev.cnt, ev.fr
 		ev.heap = snap
 		ev.cnt = ev.fr.loopEntryCnt[int(e.Args[0].Int)]
 		if ev.cnt == nil {
 			ev.cnt = map[string]string{}
 		}
+		if nn := ev.fr.loopEntryNames[int(e.Args[0].Int)]; nn != nil {
+			// program variables have the values they had when the loop was entered;
+			// quantified variables and later-bound names stay visible
+			fc := *ev.fr
+			fc.names = nn
+			ev.fr = &fc
+		}
 		v := ev.eval(e.Args[1])
-		ev.heap, ev.cnt = save, saveC
+		ev.heap, ev.cnt, ev.fr = save, saveC, saveF
 		return v
 	}
 	if sig, ok := prelude.funcs[e.Name]; ok {
@@ -652,6 +690,23 @@ func (ex *Exec) tryClause(st *State, fr *Frame, c *Clause, extra map[string]Val)
 	ev := &evalCtx{ex: ex, st: st, fr: fr, extra: extra}
 	v := ev.eval(c.Expr)
 	if len(ev.err) > 0 || v.S != "Bool" {
+		return "true", false
+	}
+	return v.T, true
+}
+
+// evalAtCallSite evaluates a callee clause in the caller's state; ok is false when the clause
+// talks about the callee's local variables (then it says nothing to the caller).
+func (ex *Exec) evalAtCallSite(st *State, pf *Frame, c *Clause) (string, bool) {
+	ev := &evalCtx{ex: ex, st: st, fr: pf}
+	v := ev.eval(c.Expr)
+	if ev.usedLocal {
+		return "true", false
+	}
+	for _, m := range ev.err {
+		ex.specError("at a call to %s: %s  [clause %s]", pf.key, m, c.Text)
+	}
+	if v.S != "Bool" {
 		return "true", false
 	}
 	return v.T, true
